@@ -30,7 +30,7 @@ TRUSTED_BASE = [
     "stdlib axioms reported by Print Assumptions: sig_not_dec, sig_forall_dec, functional_extensionality_dep, classic (Reals/Coquelicot); none declared by this development",
     "extraction: ExtrOcamlBasic only (bool/option/list/prod/unit/sumbool), no Extract Constant; OCaml 4.13 float ops instantiate NumOps (ocaml/wire.ml)",
     "correspondence harness (Python, this run): generators, tolerances, wrappers",
-    "source-translation tie (properties with kernels): harness/srctie.py (meaning given to the Python subset: unbounded ints, real floats with nan as None, row-wise reading of tensor code), the kernel table harness/srctie_kernels.py, coq/theory/TieLib.v",
+    "source-translation tie (properties with kernels): harness/srctie.py (meaning given to the Python subset: unbounded ints, real floats with nan as None; row-wise reading of tensor code, entrywise reading of utils/cplx.py, pairwise reading of SWAP.apply with region writes as masked merges, the statement grammars of the fit / Gibbs-loop / save extractors; the source-hygiene rules that make a definition the one Python runs), the kernel table harness/srctie_kernels.py with the pinned signatures / skeletons harness/srctie_params.json, coq/theory/TieLib.v",
     "modelled not verified: IEEE rounding, PyTorch kernels, torch RNG, torch.save/load, numpy helpers",
 ]
 
